@@ -13,6 +13,7 @@ import "github.com/orda-io/orda/client/pkg/errors"
 //@   props C08
 //@   requires h != nil && handlerWF(h) && h.currentCP != nil && h.datatypeDoc != nil && h.resPushPullPack != nil
 //@   requires h.currentCP.Sseq <= G.stored + len(h.pushingOperations)
+//@   requires (!h.isReadOnly ==> h.currentCP.Sseq == G.stored + len(h.pushingOperations)) && (h.isReadOnly ==> len(h.pushingOperations) == 0 && h.datatypeDoc.Sseq.End <= G.stored)
 //@   requires h.lock != nil && sel(G.held, h.lock)
 //@   ensures[a-refused-commit-stores-nothing] result != nil ==> G.stored == old(G.stored)
 //@   modifies *
